@@ -45,6 +45,7 @@ type Adapter struct {
 	// reent[n-1]: for the LAST variant the event of nonce n is a bridge call INTO a contract that counts its
 	// invocations and re-enters executeClaim(chain, n) from inside its callback (ignoring the result)
 	reent []common.Address
+	wfx   common.Address
 }
 
 func (a *Adapter) oracleKey(o string) *helpers.Signer  { return a.W.Key(a.Chain + "/oracle/" + o) }
@@ -111,11 +112,17 @@ func New(t *testing.T, chain string, oracles, bridgers, variants []string, maxNo
 	a.recv = w.Key(chain + "/receiver").AccAddress()
 	a.user = w.Key(chain + "/user")
 	w.Fund(ctx, a.user.AccAddress(), 100_000)
-	for n := 1; n <= maxNonce; n++ {
+	pair, ok := w.App.Erc20Keeper.GetTokenPair(ctx, fxtypes.DefaultDenom)
+	if !ok {
+		panic("no FX token pair")
+	}
+	a.wfx = pair.GetERC20Contract()
+	for n := 1; n <= maxNonce && len(variants) > 1; n++ {
 		data, e := precompile.NewExecuteClaimMethod(nil).PackInput(types.ExecuteClaimArgs{Chain: chain, EventNonce: big.NewInt(int64(n))})
 		must(e)
 		nonce := w.App.EvmKeeper.GetNonce(ctx, a.user.Address())
-		_, e = w.App.EvmKeeper.CallEVMWithoutGas(ctx, a.user.Address(), nil, nil, initCode(reentrantRuntime(types.GetAddress(), data)), true)
+		amt := a.amount(n, variants[len(variants)-1]).BigInt()
+		_, e = w.App.EvmKeeper.CallEVMWithoutGas(ctx, a.user.Address(), nil, nil, initCode(reentrantRuntime(types.GetAddress(), a.wfx, amt, data)), true)
 		must(e)
 		addr := crypto.CreateAddress(a.user.Address(), nonce)
 		if !w.App.EvmKeeper.IsContract(ctx, addr) {
@@ -142,15 +149,30 @@ func (a *Adapter) amount(n int, v string) sdkmath.Int {
 
 func push2(v int) []byte { return []byte{0x61, byte(v >> 8), byte(v)} }
 
-// reentrantRuntime: slot0++ ; on the FIRST invocation only: CALL(gas, target, 0, calldata), result ignored ; STOP
-// (re-entering once is enough to tell "effects twice" and keeps a broken implementation from recursing forever)
-func reentrantRuntime(target common.Address, calldata []byte) []byte {
+// reentrantRuntime: if token.balanceOf(self) == amt (i.e. this is the FIRST run of the claim's effects)
+// then CALL(gas, target, 0, calldata) with the result ignored; STOP.
+// The token balance is written by keeper-level conversions that are committed before the callback
+// runs, so (unlike the contract's own storage) it is visible to every nested execution: a correct
+// implementation refuses the nested executeClaim, a broken one runs the effects a second time (balance
+// 2*amt) and the recursion stops there.
+func reentrantRuntime(target, token common.Address, amt *big.Int, calldata []byte) []byte {
 	var c []byte
-	c = append(c, 0x60, 0x00, 0x54, 0x60, 0x01, 0x01, 0x80, 0x60, 0x00, 0x55) // v = slot0+1; slot0 = v
-	c = append(c, 0x60, 0x01, 0x14, 0x15)                                     // v != 1
-	const end, dataOff = 62, 64
-	c = append(c, push2(end)...)
+	sel := make([]byte, 32)
+	copy(sel, []byte{0x70, 0xa0, 0x82, 0x31}) // balanceOf(address)
+	c = append(c, 0x7f)
+	c = append(c, sel...)
+	c = append(c, 0x60, 0x00, 0x52)       // MSTORE(0, selector)
+	c = append(c, 0x30, 0x60, 0x04, 0x52) // MSTORE(4, ADDRESS)
+	c = append(c, 0x60, 0x20, 0x60, 0x40, 0x60, 0x24, 0x60, 0x00, 0x73)
+	c = append(c, token.Bytes()...)
+	c = append(c, 0x5a, 0xfa, 0x50) // STATICCALL ; POP
+	c = append(c, 0x60, 0x40, 0x51, 0x7f)
+	c = append(c, common.LeftPadBytes(amt.Bytes(), 32)...)
+	c = append(c, 0x14, 0x15) // EQ ; ISZERO
+	endPos := len(c) + 4 + 9 + 35
+	c = append(c, push2(endPos)...)
 	c = append(c, 0x57) // JUMPI end
+	dataOff := endPos + 2
 	c = append(c, push2(len(calldata))...)
 	c = append(c, push2(dataOff)...)
 	c = append(c, 0x60, 0x00, 0x39)
@@ -159,8 +181,8 @@ func reentrantRuntime(target common.Address, calldata []byte) []byte {
 	c = append(c, 0x60, 0x00, 0x60, 0x00, 0x73)
 	c = append(c, target.Bytes()...)
 	c = append(c, 0x5a, 0xf1, 0x50)
-	if len(c) != end {
-		panic(fmt.Sprintf("assembler offset %d", len(c)))
+	if len(c) != endPos {
+		panic(fmt.Sprintf("assembler offset %d != %d", len(c), endPos))
 	}
 	c = append(c, 0x5b, 0x00)
 	return append(c, calldata...)
@@ -196,7 +218,7 @@ func (a *Adapter) claim(b string, n int, v string) types.ExternalClaim {
 	if a.isCallVariant(v) {
 		return &types.MsgBridgeCallClaim{
 			ChainName: a.Chain, BridgerAddress: a.bridgerKey(b).AccAddress().String(), EventNonce: uint64(n), BlockHeight: uint64(1000 + n),
-			Sender: sender, Refund: sender, To: a.extAddr(a.reent[n-1].Hex()), TokenContracts: nil, Amounts: nil,
+			Sender: sender, Refund: sender, To: a.extAddr(a.reent[n-1].Hex()), TokenContracts: []string{a.tok}, Amounts: []sdkmath.Int{a.amount(n, v)},
 			Data: "01", Value: sdkmath.ZeroInt(), Memo: "", TxOrigin: sender,
 		}
 	}
@@ -441,12 +463,17 @@ func (a *Adapter) Project(ctx sdk.Context) any {
 	if bal.Sign() != 0 {
 		effects[0][a.Variants[0]] += 1000 // value beyond every modelled deposit: something else paid the receiver
 	}
-	// the bridge-call variant: how often the receiving contract's callback ran
+	// the bridge-call variant: how often the claim's deposit into the receiving contract was applied
 	if len(a.Variants) > 1 {
 		cv := a.Variants[len(a.Variants)-1]
 		for n := 1; n <= a.MaxNonce; n++ {
-			cnt := a.W.App.EvmKeeper.GetState(ctx, a.reent[n-1], common.Hash{})
-			effects[n-1][cv] += new(big.Int).SetBytes(cnt.Bytes()).Int64()
+			b, err := a.W.App.EvmKeeper.ERC20BalanceOf(ctx, a.wfx, a.reent[n-1])
+			must(err)
+			q, r := new(big.Int).QuoRem(b, a.amount(n, cv).BigInt(), new(big.Int))
+			effects[n-1][cv] += q.Int64()
+			if r.Sign() != 0 {
+				effects[n-1][cv] += 1000
+			}
 		}
 	}
 	return map[string]any{
